@@ -25,19 +25,19 @@ pub fn gen_url(t: &mut Tape) -> GenUrl {
     let mut classes = vec![];
     let scheme = if t.flag() { "https" } else { "http" }.to_string();
     let host = match t.weighted(&[4, 2, 2, 1, 1]) {
-        0 => t.pick(&["example.com", "omaha.test", "a.b-c.d", "localhost", "x"]).to_string(),
+        0 => t.pick(&["example.com", "omaha.test", "a.b-c.d", "localhost", "x", "Omaha.Example.COM", "UPPER.test"]).to_string(),
         1 => {
             classes.push("ipv4");
             format!("{}.{}.{}.{}", t.choose(256), t.choose(256), t.choose(256), t.choose(256))
         }
         2 => {
             classes.push("ipv6");
-            t.pick(&["[::1]", "[2001:db8::1]", "[fe80::1234:5678:9abc:def0]", "[::ffff:192.0.2.1]"]).to_string()
+            t.pick(&["[::1]", "[2001:db8::1]", "[fe80::1234:5678:9abc:def0]", "[::ffff:192.0.2.1]", "[2001:DB8::1]", "[FE80::ABCD]"]).to_string()
         }
         3 => {
             classes.push("ipv6_zone");
             // percent-encoded zone id, as the repository's own test uses
-            t.pick(&["[::1%eth0]", "[fe80::1%25eth0]", "[::1%25lo]"]).to_string()
+            t.pick(&["[::1%eth0]", "[fe80::1%25eth0]", "[::1%25lo]", "[fe80::1%wlP1p1s0]", "[::1%25Eth0]"]).to_string()
         }
         _ => {
             const A: &[char] = &['a', 'z', '0', '9', '-', '.'];
@@ -47,7 +47,7 @@ pub fn gen_url(t: &mut Tape) -> GenUrl {
     };
     let userinfo = if t.chance(1, 6) {
         classes.push("userinfo");
-        t.pick(&["user@", "u:p@", "a.b@"]).to_string()
+        t.pick(&["user@", "u:p@", "a.b@", "User:PW@"]).to_string()
     } else {
         String::new()
     };
